@@ -45,25 +45,52 @@ namespace c19
             s[j] = alpha[i % k];
         return s;
     }
-    // quick: every string of length <= 6; thorough: <= 8 for the cheap routine families (split/join/trim,
-    // split_cmdargs, creader), <= 7 for the expensive ones (memmem, replace, paths, shell)
-    static inline int enum_maxlen(bool cheap = true) { return vf::thorough() ? (cheap ? 8 : 7) : 6; }
-    static inline uint64_t enum_batch() { return vf::thorough() ? 6561 : 729; }
-    static inline uint64_t enum_cases(bool cheap = true) { return (nstrings(enum_maxlen(cheap)) + enum_batch() - 1) / enum_batch(); }
-    template <class F> static inline void enum_run(uint64_t idx, F f, bool cheap = true)
+    // second alphabet: for every delimiter / special character c a routine knows, the byte c|0x80 (a 7-bit table,
+    // a signed-char index or an isspace()-style call on plain char confuses the two), plus 0x80 and 0xFF,
+    // next to the plain characters they must not be confused with
+    static const char HI[17] = {' ',        'a',        '/',        '"',        '.',        (char)0xA0 /* ' '|80 */, (char)0xE1 /* 'a'|80 */,
+                                (char)0xAF /* '/'|80 */, (char)0xAE /* '.'|80 */, (char)0xA2 /* '"'|80 */, (char)0xA7 /* '\''|80 */,
+                                (char)0x89 /* TAB|80 */, (char)0x8A /* LF|80 */,  (char)0x8D /* CR|80 */,  (char)0xE2 /* 'b'|80 */,
+                                (char)0xFF, (char)0x80};
+    enum
     {
-        uint64_t lo = idx * enum_batch(), hi = lo + enum_batch(), tot = nstrings(enum_maxlen(cheap));
+        NHI = 17,
+        NHI_LOW = 5
+    };
+    static inline bool has_high(const std::string &s)
+    {
+        for (char c : s)
+            if ((unsigned char)c >= 0x80)
+                return true;
+        return false;
+    }
+    // quick: every string of length <= 6 over ALPHA; thorough: <= 8 for the cheap routine families (split/join/trim,
+    // split_cmdargs, creader), <= 7 for the expensive ones (memmem, replace, paths, shell); followed by every
+    // string of length <= 4 (thorough <= 5) over HI that holds at least one byte >= 0x80
+    static inline int enum_maxlen(bool cheap = true) { return vf::thorough() ? (cheap ? 8 : 7) : 6; }
+    static inline int hi_maxlen() { return vf::thorough() ? 5 : 4; }
+    static inline uint64_t enum_batch() { return vf::thorough() ? 6561 : 729; }
+    static inline uint64_t enum_total(bool cheap) { return nstrings(enum_maxlen(cheap)) + nstrings(hi_maxlen(), NHI); }
+    static inline uint64_t enum_cases(bool cheap = true) { return (enum_total(cheap) + enum_batch() - 1) / enum_batch(); }
+    // runs f on the strings of batch idx; returns how many were run (strings of the HI part without a high byte
+    // are skipped: they belong to the first part) and counts them as a non-repeating enumeration if `count`
+    template <class F> static inline uint64_t enum_run(uint64_t idx, F f, bool cheap = true, bool count = false)
+    {
+        uint64_t lo = idx * enum_batch(), hi = lo + enum_batch(), base = nstrings(enum_maxlen(cheap)), tot = enum_total(cheap), n = 0, k = 0;
         if (hi > tot)
             hi = tot;
         for (uint64_t i = lo; i < hi; i++)
-            f(nth(i));
-    }
-    static inline void enum_bulk(uint64_t idx, bool cheap = true)
-    {
-        uint64_t lo = idx * enum_batch(), hi = lo + enum_batch(), tot = nstrings(enum_maxlen(cheap));
-        if (hi > tot)
-            hi = tot;
-        vf::count_bulk(hi - lo, lo == 0 ? hi - lo - 1 : hi - lo);
+        {
+            std::string s = i < base ? nth(i) : nth(i - base, HI, NHI);
+            if (i >= base && !has_high(s))
+                continue;
+            f(s);
+            n++;
+            k += !s.empty();
+        }
+        if (count)
+            vf::count_bulk(n, k);
+        return n;
     }
 
     // the two placements of DESIGN §2: 0 = extent ends at the end of the block (slack on the left),
@@ -87,10 +114,12 @@ namespace c19
     }
     static inline bool has_nul(const std::string &s) { return s.find('\0') != std::string::npos; }
 
-    // random text over the alphabet plus a few extra bytes (single quote, CR, other letters, a high byte)
+    // random text over the alphabet plus extra bytes (single quote, CR, other letters, the |0x80 twins of the specials)
     static inline std::string random_text(vf::Rng &r, size_t maxlen, bool allow_nul)
     {
-        static const char EXTRA[] = {'\'', '\r', 'c', 'd', '0', '-', '\\', (char)0xC3};
+        static const char EXTRA[] = {'\'',       '\r',       'c',        'd',        '0',        '-',        '\\',       (char)0xC3, (char)0xA0,
+                                     (char)0xAF, (char)0xAE, (char)0xA2, (char)0xA7, (char)0x89, (char)0x8A, (char)0x8D, (char)0xE1, (char)0xE2,
+                                     (char)0xFF, (char)0x80};
         size_t len = r.chance(1, 6) ? r.below(8) : r.below(maxlen + 1);
         int mode = (int)r.below(4);
         std::string s;
@@ -102,7 +131,7 @@ namespace c19
             else if (mode == 1) // mostly letters with sparse delimiters
                 c = r.chance(1, 5) ? ALPHA[r.below(NALPHA)] : (char)('a' + r.below(3));
             else if (mode == 2) // delimiter heavy
-                c = r.chance(2, 3) ? " \t\n/.\"'"[r.below(7)] : (char)('a' + r.below(2));
+                c = r.chance(2, 3) ? (r.chance(1, 5) ? HI[5 + r.below(NHI - 5)] : " \t\n/.\"'"[r.below(7)]) : (char)('a' + r.below(2));
             else
                 c = r.chance(1, 4) ? EXTRA[r.below(sizeof EXTRA)] : ALPHA[r.below(NALPHA)];
             if (c == '\0' && !allow_nul)
